@@ -66,6 +66,23 @@ CHECKS.update({
               "input pinned to the same value, i.e. the operation performed by a combinator at run time), and any out-of-int32 constant in an "
               "accepted blueprint is rejected."),
         design="DESIGN 7 C11", technique="TLC refinement against Int32 compile-time semantics + lock-step twin comparison"),
+    "C12": dict(
+        text=("Pairs (P, Q) of small programs over disjoint names that reuse the same explicit signals and neighbouring tiles, in ALL "
+              "order-preserving interleavings: the build of the interleaved program runs in lock-step with the build of P alone (and Q alone) "
+              "from every valuation of both programs' inputs; P's exported values and entity conditions must coincide, hence be independent "
+              "of Q's inputs."),
+        design="DESIGN 7 C12", technique="TLC lock-step product of build(P;Q) with build(P) / build(Q) over the joint input space"),
+    "C13": dict(
+        text=("(1) The allocator design model Alloc.tla is model-checked exhaustively on a small instance (all explicit subsets, wrap-around) "
+              "for NotSpecial / FreshVsExplicit / InjectiveUntilWrap. (2) Hook events (pool, alloc) of every compile are validated as a "
+              "behaviour of that model, with the explicit signal names computed from the AST by the spec. (3) Static freshness of the chosen "
+              "signals on the blueprint, Refine1 of every program and lock-step Refine2 against its RenameImplicit twin."),
+        design="DESIGN 7 C13, 3.5 Alloc", technique="TLC design model + trace validation of allocator hook events + twin refinement"),
+    "C14": dict(
+        text=("Every ill-formed program of GenIll (40 blocks over the 20 documented rules x 4 embedding contexts x 3 positions) is replayed "
+              "through the compiler API and, one per rule, through the real command line; TLC evaluates ill-formed => rejected with a "
+              "non-empty error naming the offending identifier, non-zero exit, nothing decodable as a blueprint on stdout or in the -o file."),
+        design="DESIGN 7 C14", category="model_checking", technique="TLC evaluation of the rejection property on recorded compile outcomes of spec-generated ill-formed programs"),
     "C15": dict(
         text=("Every program of the GenFL function families is compiled together with its Inline twin (Facto!Inline: body substituted, "
               "parameters bound to the arguments, locals renamed apart, return expression in place of the call); TLC judges both builds "
